@@ -4,6 +4,7 @@ import (
 	"encoding/json"
 	"fmt"
 	"os"
+	"path/filepath"
 	"sort"
 	"strconv"
 	"strings"
@@ -13,6 +14,7 @@ import (
 	"time"
 
 	"github.com/database64128/shadowsocks-go/conn"
+	"github.com/database64128/shadowsocks-go/cred"
 	"go.uber.org/zap"
 	"pgregory.net/rapid"
 
@@ -45,6 +47,7 @@ const (
 	stConc           // present K copies of request Req concurrently
 	stOpen           // open connection Conn for request Req: HandleStream starts on a transport that is still empty
 	stDeliver        // the bytes of its request arrive on the idle connection Conn; wait for the verdict
+	stCred           // a credential-store operation (managed servers only), see credOps
 )
 
 const (
@@ -57,6 +60,20 @@ const (
 	fgForeignKey        // a request made by a client holding a different key (Req must be a foreign spec)
 	fgKinds
 )
+
+// credential-store operations of a server whose users are managed by cred.Manager (the user under test is
+// never touched; the store file always contains it)
+const (
+	crEditReloadAll = iota // rewrite the store file with a different set of other users, then Manager.ReloadAll
+	crEditLoad             // same, then ManagedServer.LoadFromFile
+	crAdd                  // AddCredential of a new user
+	crDelete               // DeleteCredential of another user
+	crUpdate               // UpdateCredential (new uPSK) of another user
+	crReloadSame           // ReloadAll with unchanged file content
+	crOps
+)
+
+var crNames = [...]string{"edit+ReloadAll", "edit+LoadFromFile", "AddCredential", "DeleteCredential", "UpdateCredential", "ReloadAll(unchanged)"}
 
 type reqSpec struct {
 	At      time.Duration `json:"at"`      // client-clock instant (since the bubble epoch) at which the real client builds it
@@ -77,23 +94,38 @@ type plan struct {
 	Class   sstcp.Class   `json:"class"`
 	Seed    uint64        `json:"seed"`
 	Dribble bool          `json:"dribble"`
-	Start   time.Duration `json:"start"` // server clock at the first step
+	Managed bool          `json:"managed"` // identity-header classes: users come from a store file through cred.Manager
+	Start   time.Duration `json:"start"`   // server clock at the first step
 	Reqs    []reqSpec     `json:"reqs"`
 	Steps   []step        `json:"steps"`
 }
 
 func (p plan) String() string {
 	var sb strings.Builder
-	fmt.Fprintf(&sb, "class=%v seed=%d dribble=%v serverStart=%v;", p.Class, p.Seed, p.Dribble, p.Start)
+	fmt.Fprintf(&sb, "class=%v seed=%d dribble=%v managed=%v serverStart=%v;", p.Class, p.Seed, p.Dribble, p.Managed, p.Start)
 	for i, r := range p.Reqs {
+		if len(p.Reqs) > 60 && i >= 8 && i < len(p.Reqs)-24 {
+			if i == 8 {
+				fmt.Fprintf(&sb, " ...(%d requests)...", len(p.Reqs)-32)
+			}
+			continue
+		}
 		fmt.Fprintf(&sb, " r%d@client=%v", i, r.At)
 		if r.Foreign {
 			sb.WriteString("(foreign key)")
 		}
 	}
 	sb.WriteString(";")
-	for _, s := range p.Steps {
+	for i, s := range p.Steps {
+		if len(p.Steps) > 90 && i >= 10 && i < len(p.Steps)-40 {
+			if i == 10 {
+				fmt.Fprintf(&sb, " ...(%d steps)...", len(p.Steps)-50)
+			}
+			continue
+		}
 		switch s.Kind {
+		case stCred:
+			fmt.Fprintf(&sb, " cred(%s)", crNames[s.K%crOps])
 		case stAdv:
 			fmt.Fprintf(&sb, " +%v", s.D)
 		case stPresent:
@@ -260,9 +292,48 @@ func execute(t *testing.T, p plan) (out outcome) {
 		}
 	}
 
+	// managed servers: the users live in a store file that a cred.Manager loads into the server's CredStore
+	var storePath string
+	if p.Managed && p.Class.NIPSK > 0 {
+		dir, err := os.MkdirTemp(os.Getenv("VERIF_WORK"), "c03-cred-")
+		if err != nil {
+			out.violation = "SIG=" + sigHarness + " temp dir: " + err.Error()
+			return
+		}
+		defer os.RemoveAll(dir)
+		storePath = filepath.Join(dir, "upsks.json")
+	}
+	writeStore := func(gen int) error {
+		m := map[string][]byte{w.UserName: w.UPSK, "bob": sstcp.Bytes(p.Class.KeyLen, p.Seed^0xB0B)}
+		for i := 0; i < gen%4; i++ {
+			m[fmt.Sprintf("extra-%d-%d", gen, i)] = sstcp.Bytes(p.Class.KeyLen, p.Seed^uint64(gen*16+i)^0xE7)
+		}
+		b, err := json.MarshalIndent(m, "", strings.Repeat(" ", 1+gen%3))
+		if err != nil {
+			return err
+		}
+		return os.WriteFile(storePath, b, 0o644)
+	}
+	credChanged := map[int]bool{} // request accepted, then a credential operation happened
+
 	// Bubble B: the server clock.
 	synctest.Test(t, func(*testing.T) {
 		server := w.NewServer()
+		var ms *cred.ManagedServer
+		var mgr *cred.Manager
+		storeGen := 0
+		if storePath != "" {
+			err := writeStore(storeGen)
+			if err == nil {
+				mgr = cred.NewManager(nop)
+				ms, err = mgr.RegisterServer("s", storePath, p.Class.KeyLen, &server.CredStore, nil)
+			}
+			if err != nil {
+				out.violation = "SIG=" + sigHarness + " credential manager: " + err.Error()
+				return
+			}
+			out.labels["managed-server"] = true
+		}
 		time.Sleep(p.Start)
 		now := p.Start
 
@@ -325,6 +396,44 @@ func execute(t *testing.T, p plan) (out outcome) {
 				if ok {
 					violate(sigForged, "step %d: forged kind %d derived from r%d accepted at server instant %v", si, s.Forge, s.Req, now)
 				}
+			case stCred:
+				if ms == nil {
+					continue
+				}
+				var err error
+				op := s.K % crOps
+				switch op {
+				case crEditReloadAll, crEditLoad:
+					storeGen++
+					if err = writeStore(storeGen); err == nil {
+						if op == crEditReloadAll {
+							mgr.ReloadAll()
+						} else {
+							err = ms.LoadFromFile()
+						}
+					}
+					if err != nil {
+						violate(sigHarness, "step %d: reload failed: %v", si, err)
+					}
+					out.labels["cred-reload"] = true
+				case crAdd:
+					_ = ms.AddCredential(fmt.Sprintf("dyn-%d", si), sstcp.Bytes(p.Class.KeyLen, p.Seed^uint64(si)^0xADD))
+					out.labels["cred-add"] = true
+				case crDelete:
+					_ = ms.DeleteCredential("bob") // may already be gone; a reload brings bob back
+					out.labels["cred-delete"] = true
+				case crUpdate:
+					_ = ms.UpdateCredential("bob", sstcp.Bytes(p.Class.KeyLen, p.Seed^uint64(si)^0x0BD))
+					out.labels["cred-update"] = true
+				case crReloadSame:
+					mgr.ReloadAll()
+				}
+				if op != crReloadSame {
+					for r := range accepted {
+						credChanged[r] = true
+					}
+				}
+				keyParts = append(keyParts, fmt.Sprintf("c%d", op))
 			case stOpen:
 				ic := &idleConn{req: s.Req, c: newConn(), openedAt: now, done: make(chan [2]bool, 1)}
 				idle[s.Conn] = ic
@@ -414,6 +523,9 @@ func execute(t *testing.T, p plan) (out outcome) {
 				case was:
 					cls = "d"
 					out.labels["replay-in-window"] = true
+					if credChanged[r] {
+						out.labels["replay-in-window-after-credential-change"] = true
+					}
 				default:
 					if forgedOn[r] {
 						out.labels["fresh-after-forged-same-salt"] = true
@@ -515,7 +627,7 @@ type rawStep struct{ Kind, A, B, C, D int }
 
 var rawGen = rapid.Custom(func(t *rapid.T) rawStep {
 	return rawStep{
-		Kind: rapid.IntRange(0, 17).Draw(t, "kind"),
+		Kind: rapid.IntRange(0, 19).Draw(t, "kind"),
 		A:    rapid.IntRange(0, 63).Draw(t, "a"),
 		B:    rapid.IntRange(0, 63).Draw(t, "b"),
 		C:    rapid.IntRange(0, 63).Draw(t, "c"),
@@ -542,6 +654,7 @@ func drawClass(rt *rapid.T) sstcp.Class {
 func drawPlan(rt *rapid.T) plan {
 	p := plan{Class: drawClass(rt), Seed: rapid.Uint64().Draw(rt, "seed")}
 	p.Dribble = rapid.Bool().Draw(rt, "dribble") && p.Class.Prefix != sstcp.PrefixBig
+	p.Managed = rapid.Bool().Draw(rt, "managed") && p.Class.NIPSK > 0
 	p.Start = baseServerAdv + at([]time.Duration{0, time.Nanosecond, 500 * time.Millisecond, time.Second - time.Nanosecond, 0}, rapid.IntRange(0, 4).Draw(rt, "startphase"))
 	raws := rapid.SliceOfN(rawGen, 1, 14).Draw(rt, "steps")
 	now := p.Start
@@ -674,6 +787,28 @@ func drawPlan(rt *rapid.T) plan {
 			p.Steps = append(p.Steps, step{Kind: stDeliver, Conn: pending[i].conn})
 			note(pending[i].req)
 			pending = append(pending[:i:i], pending[i+1:]...)
+		case kind == 18 && p.Managed: // a credential-store operation
+			p.Steps = append(p.Steps, step{Kind: stCred, K: s.A % crOps})
+		case kind == 19 && p.Managed:
+			// credential probe: accept a request, change the credential store, (wait a little,) same bytes again
+			var r int
+			if s.C%3 == 0 {
+				r = at(genuine, s.A)
+			} else {
+				r = newReq(false, s.A, s.B)
+			}
+			p.Steps = append(p.Steps, step{Kind: stPresent, Req: r})
+			note(r)
+			p.Steps = append(p.Steps, step{Kind: stCred, K: s.D % crOps})
+			if s.D/8%2 == 1 {
+				p.Steps = append(p.Steps, step{Kind: stCred, K: s.D / 16 % crOps})
+			}
+			if d := at([]time.Duration{0, 0, time.Second, 29 * time.Second, 59 * time.Second}, s.D/128); d > 0 {
+				p.Steps = append(p.Steps, step{Kind: stAdv, D: d})
+				now += d
+			}
+			p.Steps = append(p.Steps, step{Kind: stPresent, Req: r})
+			note(r)
 		default:
 			// idle probe: open a connection, (let the same request be accepted on another connection,) let the clock
 			// run for d, (let another request be accepted,) then the bytes arrive
@@ -732,13 +867,16 @@ var recHist = ev.New("C03", "replay-history",
 		"traffic derived from a request (garbage, bit flips in fixed header/EIH/prefix, genuine salt + random, truncated, foreign key), present k in 2..8 "+
 		"copies concurrently, open a connection whose bytes arrive later (HandleStream already blocked in its first read while the clock moves; "+
 		"idle probe = open / optional acceptance of the same request elsewhere / +d in {0,1s-1ns,1s,29..31s,59..61s,100s} / optional other accept / bytes arrive; "+
+		"for identity-header classes optionally a server whose users are managed by cred.Manager from a store file, with steps edit file + ReloadAll / "+
+		"LoadFromFile, AddCredential, DeleteCredential, UpdateCredential of other users and a credential probe = accept / credential operation(s) / same bytes again; "+
 		"every verdict is judged at the instant the bytes arrive), retention probe = accept / move to accept+{59s,60s-1ns,60s,60s+1ns,60.5s,61s-1ns,61s} / optional other accept / same bytes again}; client clock and server clock are two synctest bubbles; every presentation is judged against the model "+
 		"accept iff -30 < ts-floor(now) <= 30 (whole seconds) and never accepted before. Non-trivial: a request presented twice inside its validity window with another "+
 		"request accepted in between; distinct key = class + sequence of presentation classes").
 	Require("replay-in-window", "re-presented-60s-to-61s-after-accept", "re-presented-after-retention-with-accept-between", "fresh-after-forged-same-salt",
 		"presented-outside-window", "skew-at-limit", "skew-just-outside", "concurrent", "valid-after-refused-as-outside-window",
 		"idle>=1s-before-bytes-arrive", "idle>=31s-before-bytes-arrive", "idle-connection-opened-before-earlier-acceptance",
-		"idle-connection-opened-before-acceptance-delivered-after-retention")
+		"idle-connection-opened-before-acceptance-delivered-after-retention",
+		"managed-server", "cred-reload", "cred-add", "cred-delete", "cred-update", "replay-in-window-after-credential-change")
 
 func record(rec *ev.Recorder, p plan, out outcome) {
 	labels := make([]string, 0, len(out.labels)+1)
@@ -932,6 +1070,15 @@ func regressionPlans() []plan {
 				Reqs: []reqSpec{{At: baseServerAdv + d + 29*time.Second}, {At: baseServerAdv + d}},
 				Steps: []step{{Kind: stOpen, Req: 0, Conn: 0}, {Kind: stAdv, D: d}, {Kind: stDeliver, Conn: 0}, {Kind: stPresent, Req: 1},
 					{Kind: stPresent, Req: 0}, {Kind: stAdv, D: 59 * time.Second}, {Kind: stPresent, Req: 0}}})
+		}
+	}
+	// replay history must survive credential changes of a managed multi-user server
+	for ci, c := range []sstcp.Class{{KeyLen: 16, NIPSK: 1, Segmented: true}, {KeyLen: 32, NIPSK: 2, Prefix: 1, Fallback: true}} {
+		for op := 0; op < crOps; op++ {
+			ps = append(ps, plan{Class: c, Seed: uint64(400 + ci), Start: baseServerAdv, Managed: true,
+				Reqs: []reqSpec{{At: baseServerAdv}, {At: baseServerAdv + time.Second}},
+				Steps: []step{{Kind: stPresent, Req: 0}, {Kind: stCred, K: op}, {Kind: stPresent, Req: 0}, {Kind: stAdv, D: time.Second},
+					{Kind: stPresent, Req: 1}, {Kind: stCred, K: crEditReloadAll}, {Kind: stCred, K: crAdd}, {Kind: stConc, Req: 0, K: 3}, {Kind: stPresent, Req: 1}}})
 		}
 	}
 	return ps
